@@ -45,7 +45,7 @@ def case_strategy(draw):
     elif kind == "columns":
         t["order"] = list(draw(st.permutations(range(len(spec["cols"])))))
     elif kind == "add_unused":
-        t["which"] = draw(st.lists(st.sampled_from(["num", "str", "nan", "obj", "catcol", "named_like_callees"]), min_size=1, max_size=4, unique=True))
+        t["which"] = draw(st.lists(st.sampled_from(["num", "str", "nan", "obj", "catcol", "named_like_callees", "duplicate_label"]), min_size=1, max_size=4, unique=True))
     holes = {}
     if draw(st.integers(0, 2)) == 0:
         used = sorted(rich.used_columns(d) & {"x", "z", "p", "y", "f", "g", "h", "u"})
@@ -91,6 +91,8 @@ def transformed(spec, t, used):
                 s["cols"].insert(0, {"name": "extra_str", "kind": "str", "values": ["e%d" % (i % 2) for i in range(n)]})
             elif w == "nan":
                 s["cols"].append({"name": "extra_nan", "kind": "float", "values": [None] * n})
+            elif w == "duplicate_label":
+                s["duplicate_unused_label"] = True
             elif w == "named_like_callees":
                 # columns that carry the names of the functions, modules, keywords and levels a formula mentions, with
                 # missing values: none of them is a variable of the formula
